@@ -66,6 +66,7 @@ type Contract struct {
 	Atomic    bool
 	Notes     []string
 	ParamName []string // optional override of parameter names (extern)
+	Uses      []string // lemmas (proved elsewhere) assumed while verifying this function
 }
 
 type PureFn struct {
@@ -109,7 +110,13 @@ type LockDecl struct {
 	Line      int
 }
 
+type GlobalInv struct {
+	Pkg, Text, File string
+	Line            int
+}
+
 type SpecDB struct {
+	GlobalInvs []*GlobalInv
 	Contracts map[string]*Contract
 	Pure      map[string]*PureFn // key: pkgpath.name and bare name for global ones
 	Axioms    []*Axiom
@@ -257,6 +264,10 @@ func (db *SpecDB) LoadFile(path, pkgPath string) error {
 			db.Ghosts[owner] = append(db.Ghosts[owner], g)
 			cur = nil
 			continue
+		case "globalinv":
+			db.GlobalInvs = append(db.GlobalInvs, &GlobalInv{Pkg: curPkg, Text: rest, File: path, Line: ln})
+			cur = nil
+			continue
 		case "lock":
 			fs := strings.Fields(rest)
 			dot := strings.LastIndex(fs[0], ".")
@@ -335,6 +346,8 @@ func (db *SpecDB) LoadFile(path, pkgPath string) error {
 			cur.Notes = append(cur.Notes, rest)
 		case "params":
 			cur.ParamName = strings.Fields(rest)
+		case "uses":
+			cur.Uses = append(cur.Uses, strings.Fields(rest)...)
 		default:
 			return fmt.Errorf("%s:%d: unknown clause %q", path, ln, word)
 		}
